@@ -46,7 +46,10 @@ OPS_A = ([("step", e, j, o) for e in ("numpy", "SX", "MX") for j in (0, 1) for o
          + [("inplace0",)]
          # a compilation with the extra flow outputs, a caller-held `parameters` dictionary (one declared symbol that enters
          # nothing) and a caller-held dictionary of keyword constants - both retained and passed again next time
-         + [("tofunP",)])
+         + [("tofunP",)]
+         # the caller assigns other values to public element attributes (critical densities, maximum densities, capacities)
+         # between two steps that re-use the same retained arrays / symbols, engine objects and parameter objects
+         + [("setparams",)])
 OPS_B = [("step", "numpy", j, o) for j in (0, 1) for o in (0, 1)] + [("feedback", o) for o in (0, 1)] + [("inplace0",)]
 
 
@@ -100,6 +103,15 @@ def param_diff(built, snap):
     return None
 
 
+def edit_params(obj):
+    for key, el in obj.items():
+        if key.startswith("L"):
+            el.rho_crit = el.rho_crit + 2.0
+            el.rho_max = el.rho_max - 10.0
+        elif key.startswith("O") and hasattr(el, "C"):
+            el.C = el.C * 0.5
+
+
 class Session:
     """One history: fresh network objects, caller-held inputs for both value sets."""
 
@@ -125,6 +137,7 @@ class Session:
         self.kwdict = dict(P)
         self.held = []  # (dict-of-arrays used as feedback input, snapshot)
         self.n_inplace = 0
+        self.n_setparams = 0
 
     def cs_inputs(self, sym, j):
         if (sym, j) not in self.cs_ic:
@@ -190,6 +203,11 @@ class Session:
             self.P = P_save
 
     def _apply(self, op, k, net):
+        if k == "setparams":
+            self.n_setparams += 1
+            edit_params(self.built.obj)
+            self.psnap = param_snapshot(self.built)
+            return None
         if k == "inplace0":
             # legitimate caller action: new contents in the SAME array objects; the snapshots follow
             self.n_inplace += 1
@@ -246,7 +264,17 @@ class Session:
             self.held.append((cur, {kk: v.copy() for kk, v in cur.items()}))
             self.symbolic_now = False
             net.step(init_conditions=ic, engine=env.numpy_engine(), **self.P, **(ALLPOS if o else {}))
-            return None
+            got = {kk: np.array(v, dtype=float, copy=True) for kk, v in read_next(self.built).items()}
+            # the same step from COPIES of those values on a freshly built network
+            fresh = build(self.spec, override=array_params(self.spec) if self.family == "B" else None)
+            for _ in range(self.n_setparams):
+                edit_params(fresh.obj)
+            fic = {fresh.obj[kk_]: {n_: a_.copy() for n_, a_ in ic[self.built.obj[kk_]].items()} for kk_ in fresh.obj
+                   if self.built.obj[kk_] in ic}
+            fresh.net.step(init_conditions=fic, engine=env.numpy_engine(), **{k_: (np.array(float(v_)) if self.family == "B" else float(v_))
+                                                                               for k_, v_ in self.P.items()}, **(ALLPOS if o else {}))
+            ref = {kk: np.array(v, dtype=float, copy=True) for kk, v in read_next(fresh).items()}
+            return "np-direct", got, ref
         if k == "tofunP":
             sym = self.last_cs or "SX"
             eng = self.engines[sym]
@@ -282,10 +310,12 @@ def order_of(name, spec):
     return reversed_order(spec) if name.endswith("-reversed") else None
 
 
-def reference(spec, family, op, order=None, n_inplace=0):
-    key = (spec, family, op, None if order is None else tuple(order), n_inplace)
+def reference(spec, family, op, order=None, n_inplace=0, n_setparams=0):
+    key = (spec, family, op, None if order is None else tuple(order), n_inplace, n_setparams)
     if key not in _REF:
         s = Session(spec, family, order)
+        for _ in range(n_setparams):
+            s.apply(("setparams",))
         for _ in range(n_inplace):
             s.apply(("inplace0",))
         _REF[key] = s.apply(op)
@@ -306,8 +336,17 @@ def run_history(spec, family, hist, st: Stats, order=None):
         if inv:
             problems.append((f"C12/{inv[0]}", f"after operation {i} {op}: {inv[1]}"))
             return problems
-        if obs is not None and op[0] in ("step", "stepP"):
-            ref = reference(spec, family, op, order, s.n_inplace if (len(op) > 2 and op[2] == 0) else 0)
+        if obs is not None and obs[0] == "np-direct":
+            for kk, v in obs[2].items():
+                a = obs[1][kk]
+                st.inc("components_compared", v.size)
+                if a.shape != v.shape or not np.array_equal(a, v, equal_nan=True):
+                    problems.append((f"C12/not-repeatable/fed-back/{kk[1]}", f"operation {i} {op}: step fed with the arrays of the previous "
+                                     f"next states: next {kk[1]} of {kk[0]} = {a.tolist()}, the same step from copies of those values "
+                                     f"on a fresh network gives {v.tolist()}"))
+                    return problems
+        elif obs is not None and op[0] in ("step", "stepP"):
+            ref = reference(spec, family, op, order, s.n_inplace if (len(op) > 2 and op[2] == 0) else 0, s.n_setparams)
             if obs[0] == "np":
                 for kk, v in ref[1].items():
                     a = obs[1][kk]
@@ -330,7 +369,7 @@ def run_history(spec, family, hist, st: Stats, order=None):
 
 OPS_A_CORE = ([("step", "numpy", j, o) for j in (0, 1) for o in (0, 1)] + [("feedback", 0), ("feedback", 1)]
               + [("step", "SX", 0, 0), ("step", "SX", 2, 0), ("step", "SX", 2, 1), ("step", "MX", 2, 1), ("tofun", 0),
-                 ("stepP", "SX", 0), ("inplace0",)])
+                 ("stepP", "SX", 0), ("inplace0",), ("setparams",)])
 
 
 def worker(item):
